@@ -10,20 +10,23 @@ Diag(cls, what, detail) ==
 Has(e, f) == f \in DOMAIN e
 MinOf(S) == CHOOSE m \in S : \A o \in S : m <= o
 
-(* ---- op "yuv_sweep": 4x1 pictures y = ys, cb = [cb, 255-cb], cr = [cr, 255-cr] for all (cb,cr): pixels 1,2 use    *)
-(* ---- the first chroma pair, pixels 3,4 the second; over all (cb,cr) every pixel position meets every chroma pair ---- *)
-SwCb(i, k) == IF k <= 2 THEN i \div 256 ELSE 255 - (i \div 256)
-SwCr(i, k) == IF k <= 2 THEN i % 256 ELSE 255 - (i % 256)
+(* ---- op "yuv_sweep": w x 1 pictures (w = Len(ys), 1..8) y = ys, chroma sample j (0-based) = SwC(v, j) for all (cb, cr):  *)
+(* ---- pixel k uses chroma sample (k-1) div 2; neighbouring chroma samples differ; over all (cb, cr) every pixel position  *)
+(* ---- meets every chroma pair.  Widths that are not multiples of four also reach the conversion of left-over pixels. ---- *)
+SwC(v, j) == ((IF j % 2 = 0 THEN v ELSE 255 - v) + 64 * (j \div 2)) % 256
+SwCb(i, k) == SwC(i \div 256, (k - 1) \div 2)
+SwCr(i, k) == SwC(i % 256, (k - 1) \div 2)
 SweepOk(e) ==
+    LET w == Len(e.ys) IN
     IF e.ret # "ok" THEN Diag("IMPL", "yuv-outcome", [ret |-> e.ret, ys |-> e.ys])
-    ELSE IF Len(e.px) # 262144 THEN Diag("HARNESS", "sweep-length", Len(e.px))
-    ELSE LET bad == {i \in 0..65535 : \E k \in 1..4 :
-                         e.px[4 * i + k] # Pixel(e.ys[k], SwCb(i, k), SwCr(i, k))}
+    ELSE IF w \notin 1..8 \/ Len(e.px) # 65536 * w THEN Diag("HARNESS", "sweep-length", Len(e.px))
+    ELSE LET bad == {i \in 0..65535 : \E k \in 1..w :
+                         e.px[w * i + k] # Pixel(e.ys[k], SwCb(i, k), SwCr(i, k))}
          IN  IF bad = {} THEN TRUE ELSE
                 LET i == MinOf(bad)
-                    k == MinOf({k \in 1..4 : e.px[4 * i + k] # Pixel(e.ys[k], SwCb(i, k), SwCr(i, k))})
+                    k == MinOf({k \in 1..w : e.px[w * i + k] # Pixel(e.ys[k], SwCb(i, k), SwCr(i, k))})
                 IN Diag("IMPL", "colour",
-                        [y |-> e.ys[k], cb |-> SwCb(i, k), cr |-> SwCr(i, k), pixel |-> k, got |-> e.px[4 * i + k],
+                        [y |-> e.ys[k], cb |-> SwCb(i, k), cr |-> SwCr(i, k), pixel |-> k, width |-> w, got |-> e.px[w * i + k],
                          expected |-> Pixel(e.ys[k], SwCb(i, k), SwCr(i, k)), count |-> Cardinality(bad)])
 
 (* ---- op "yuv": one picture of any size ---- *)
